@@ -411,8 +411,16 @@ pub fn c01(tier: Tier) -> i32 {
         }));
     }
 
+    // Stream 6: long tokens (lengths across 2^8, 2^15, 2^16 and 2^17 characters, multi-byte
+    // included), judged by the derivative-based reference tokenizer (no input length limit).
+    #[cfg(feature = "hooks")]
+    {
+        let nlong = ctx.scale(64, 2_000);
+        res.merge(run_cases(&ctx, 6, nlong, |rng, _i, st| crate::checks_scale::c01_long_case(rng, st)));
+    }
+
     let report = Report::new(
-        "stream 5: large modes of 40-150 patterns (keyword sets with shared prefixes over 3 to 48 letters plus general patterns; automata with hundreds of states); stream 4: the valid rows of the repository's tests/match_test.rs re-judged by the reference; stream 1: random lookahead-free modes (1-6 patterns as IR: literals in all escape styles, dot, classes, Perl classes, groups, alternation incl. empty branches, * + ? {m} {m,} {m,n}; token types by index or arbitrary u32 values) x inputs of 0-40 chars built from members/near-misses of the pattern languages plus noise, through build_uncached / build / add_patterns; stream 2: every IR term with <= k operators over {a,b} as single pattern x every string over {a,b,z} up to length L (exhaustive sub-space); thorough adds sampled term pairs. Oracle: denotational matcher + longest-match/first-pattern/skip rule. A case is non-trivial if tokens were produced and a tie-break, a later-pattern-wins-by-length or a skip event occurred (stream 1) / a token was produced (stream 2); distinct by hash of (configuration, input).",
+        "stream 6: long tokens - 1-4 patterns from a pool of run-shaped patterns (a+, [bc]+d, string and comment literals, multi-byte runs, (fg)*, (h|hi)+j, counted classes, .+) in random priority order, inputs of 2-7 pieces with lengths around 256, 32 768, 65 536 and 131 072 characters and in between (up to 0.9 MB), every token compared with the derivative-based reference tokenizer (longest match, first listed pattern, skip); stream 5: large modes of 40-150 patterns (keyword sets with shared prefixes over 3 to 48 letters plus general patterns; automata with hundreds of states); stream 4: the valid rows of the repository's tests/match_test.rs re-judged by the reference; stream 1: random lookahead-free modes (1-6 patterns as IR: literals in all escape styles, dot, classes, Perl classes, groups, alternation incl. empty branches, * + ? {m} {m,} {m,n}; token types by index or arbitrary u32 values) x inputs of 0-40 chars built from members/near-misses of the pattern languages plus noise, through build_uncached / build / add_patterns; stream 2: every IR term with <= k operators over {a,b} as single pattern x every string over {a,b,z} up to length L (exhaustive sub-space); thorough adds sampled term pairs. Oracle: denotational matcher + longest-match/first-pattern/skip rule. A case is non-trivial if tokens were produced and a tie-break, a later-pattern-wins-by-length or a skip event occurred (stream 1) / a token was produced (stream 2); distinct by hash of (configuration, input).",
     )
     .floor("tie_break", 1000)
     .floor("later_wins_by_length", 1000)
@@ -423,6 +431,8 @@ pub fn c01(tier: Tier) -> i32 {
     .floor("systematic_scans", 100_000)
     .floor("repository_rows_checked", 100)
     .floor("large_mode_scans", 1_000)
+    .floor("long_token_scans", if cfg!(feature = "hooks") { 50 } else { 0 })
+    .floor("scans_with_a_piece_longer_than_65535_chars", if cfg!(feature = "hooks") { 20 } else { 0 })
     .assume("regex-syntax 0.8 is only used as a guard (printed IR must parse back to the same structure, otherwise the case is skipped and counted)")
     .assume("non-ASCII membership of \\d \\s \\w is calibrated on the scanner built from that item alone (C08 covers the items themselves)")
     .extra("systematic_terms", json!(sys_terms))
